@@ -156,6 +156,9 @@ package event
   at recv(Events) assume [parent-events-are-non-nil] (=> $ok (not (= $val vnil)))
   at recv(Events) set nrcv := (+ nrcv (ite $ok 1 0))
   at recv(Events) set lastIn := $val
+  ghost parentClosed : Bool := false
+  at recv(Events) set parentClosed := (not $ok)
+  at close(s.outch) assert [output-ends-only-when-the-parent-stream-ended] parentClosed
   at call(wrapEvent) assert [wraps-the-event-just-received] (= $0 lastIn)
   at call(wrapEvent).after set nskip := (+ nskip (ite (= $result1 vnil) 0 1))
   at call(wrapEvent).after set lastOut := $result0
